@@ -33,7 +33,7 @@ def apply(dst, file, old, new):
     path = os.path.join(dst, file)
     text = open(path, encoding="utf-8").read()
     if text.count(old) != 1:
-        raise SystemExit(f"mutant anchor occurs {text.count(old)}x in {file}: {old!r}")
+        raise ValueError(f"mutant anchor occurs {text.count(old)}x in {file}: {old[:80]!r}")
     open(path, "w", encoding="utf-8").write(text.replace(old, new))
 
 
@@ -43,8 +43,11 @@ def run_one(prop, mutant, tier, tests, seed):
     make_copy(dst)
     try:
         edits = [(file, old, new)] if not isinstance(file, list) else file
-        for f, o, n in edits:
-            apply(dst, f, o, n)
+        try:
+            for f, o, n in edits:
+                apply(dst, f, o, n)
+        except ValueError as exc:
+            return f"ANCHOR {prop} {name}: {exc}"
         suite = ""
         if tests:
             r = subprocess.run(
